@@ -28,6 +28,10 @@ import (
 // modulus identity, public exponent, lexical form) and the key value has a Go type AND a shape
 // (what an *rsa.PrivateKey holds); both are concretised in c11_helpers_test.go.  Key values
 // that can be a ServiceProvider.Key are also delivered through a service provider holding them.
+// Round 3: X509Data is a sequence of items (certificates and the hints X509IssuerSerial / X509SubjectName /
+// X509SKI, in one or several X509Data elements), and every element tree is written in the LEXICAL FORM the
+// vector names (xmlenc_lex.go: namespace prefixes, place of the declarations, attribute order, white space
+// and comments between child elements).  The class of a case never depends on the form.
 
 type c11Why struct {
 	Alg     bool `json:"alg"`
@@ -45,6 +49,7 @@ type c11Vec struct {
 	Via      string    `json:"via"`
 	El       xeEl      `json:"el"`
 	Key      c11KeyVal `json:"key"`
+	Lex      xeLex     `json:"lex"`
 	Class    string    `json:"class"`
 	Baseline bool      `json:"baseline"`
 	X509     []c11X509 `json:"x509"` // per level of path(): the X509Data of that level
@@ -124,11 +129,23 @@ func (v *c11Vec) dataKeyLen() string {
 }
 
 func (v *c11Vec) id() string {
-	b, _ := json.Marshal([]any{v.Fam, v.Via, v.El, v.Key})
+	if v.Lex.isPkg() {
+		b, _ := json.Marshal([]any{v.Fam, v.Via, v.El, v.Key})
+		return hashKey(string(b))
+	}
+	b, _ := json.Marshal([]any{v.Fam, v.Via, v.El, v.Key, v.Lex.norm()})
 	return hashKey(string(b))
 }
 
-func (v *c11Vec) panicKey(prefix string) string {
+// lexSuffix names the lexical form in a key when it is not the package's own.
+func (v *c11Vec) lexSuffix() string {
+	if v.Lex.isPkg() {
+		return ""
+	}
+	return ":" + v.Lex.name()
+}
+
+func (v *c11Vec) panicKeyPkg(prefix string) string {
 	// a key value of an unusual Go type / shape: the abstract case is that key value x the algorithm
 	// of the level it is handed to (the innermost level Decrypt visits)
 	if v.Key.unusual() {
@@ -233,7 +250,7 @@ var c11SP = func() func() *saml.ServiceProvider {
 
 // c11Response wraps an EncryptedData element (and optionally sibling EncryptedKeys) in an
 // unsigned Response as anyone on the network can post it to the ACS endpoint.
-func c11Response(ed *etree.Element, sibling bool) []byte {
+func c11Response(ed *etree.Element, sibling bool, l xeLex) []byte {
 	ea := etree.NewElement("saml:EncryptedAssertion")
 	ed = ed.Copy()
 	ea.AddChild(ed)
@@ -245,6 +262,8 @@ func c11Response(ed *etree.Element, sibling bool) []byte {
 			}
 		}
 	}
+	// the lexical form of the vector; the EncryptedAssertion is the ancestor that can carry declarations
+	xeRelex(ea.ChildElements(), ea, l)
 	now := time.Now().UTC().Format("2006-01-02T15:04:05Z")
 	return docBytes(buildResponse(RespSpec{ID: "id-resp-c11", InResponseTo: sp("id-req-1"), IssueInstant: sp(now),
 		Destination: sp(spACS), Issuer: sp(idpEntityID), Status: sp(statusOK), Assertions: []*etree.Element{ea}}))
@@ -277,9 +296,12 @@ func c11Execute(v *c11Vec, rng *rand.Rand) *c11Run {
 	r := &c11Run{SP: map[string]c11Obs{}, SPXML: map[string]string{}}
 	ctx := newXeCtx(rng)
 	el := c11Build(ctx, v)
-	root, xmlb, err := reparse(el)
+	root, xmlb, err := xeRender(el, v.Lex)
 	if err != nil {
 		panic("harness: built element does not parse: " + err.Error())
+	}
+	if err := xeNamespaceOK(root); err != nil {
+		panic("harness: lexical form " + v.Lex.name() + " changes the element tree: " + err.Error())
 	}
 	r.XML = string(xmlb)
 	var got []byte
@@ -321,7 +343,7 @@ func c11Execute(v *c11Vec, rng *rand.Rand) *c11Run {
 	}
 	if prov != nil {
 		for _, mode := range []string{"nested", "sibling"} {
-			doc := c11Response(el, mode == "sibling")
+			doc := c11Response(el, mode == "sibling", v.Lex)
 			r.SPXML[mode] = string(doc)
 			r.SP[mode] = c11RunSPWith(prov(), doc)
 		}
@@ -545,7 +567,7 @@ func c11MutationRun(n int, rep *Report) []c11Mut {
 func TestC11(t *testing.T) {
 	rep := NewReport("C11")
 	defer rep.Finish(t)
-	rep.Rule = "every terminal state of spec/XmlEnc.tla family C11 (per algorithm every CipherValue length 0..IV+4 blocks+1(+tag) x final-byte representative {0,1,bs,bs+1,n-1,n,n+1,255} / GCM region modified, direct and RSA-wrapped keys incl. 8-octet 3DES keys; EncryptionMethod / CipherData / DigestMethod / nesting / repetition variants; X509Data classes described by their certificates: none, X509Data without certificate, the key's certificate, other modulus, same modulus with public exponent 3, RSA of another size, EC, not a certificate, line-wrapped / indented base64, two certificates in either order; key values by Go type and shape: []byte of eight sizes incl. nil and empty slice, nil, string, *ecdsa.PrivateKey, ed25519.PrivateKey, *rsa.PublicKey, rsa.PrivateKey value, a crypto.Signer/Decrypter around the key, *rsa.PrivateKey as parsed / without Precomputed / with N,E,D only / with a wrong D / without D / zero value / nil pointer, these crossed with the three RSA key transports x EncryptedKey alone or nested x valid, undecodable, absent, junk cipher value x certificate absent, matching, same-modulus-other-exponent) is concretised with random contents and given to xmlenc.Decrypt, RSA-wrapped ones also to ServiceProvider.ParseXMLResponse inside an unsigned Response (EncryptedKey nested and as sibling; the service provider holds the sp key or, for key values that are a crypto.Signer, that key value); plus structure-aware mutations of xmlenc/corpus, crashers and testdata; oracle: no panic, MustReject => error; non-trivial = MustReject cases and baseline cases that decrypt"
+	rep.Rule = "every terminal state of spec/XmlEnc.tla family C11 (per algorithm every CipherValue length 0..IV+4 blocks+1(+tag) x final-byte representative {0,1,bs,bs+1,n-1,n,n+1,255} / GCM region modified, direct and RSA-wrapped keys incl. 8-octet 3DES keys; EncryptionMethod / CipherData / DigestMethod / nesting / repetition variants; X509Data classes described by their certificates: none, X509Data without certificate, the key's certificate, other modulus, same modulus with public exponent 3, RSA of another size, EC, not a certificate, line-wrapped / indented base64, two certificates in either order; key values by Go type and shape: []byte of eight sizes incl. nil and empty slice, nil, string, *ecdsa.PrivateKey, ed25519.PrivateKey, *rsa.PublicKey, rsa.PrivateKey value, a crypto.Signer/Decrypter around the key, *rsa.PrivateKey as parsed / without Precomputed / with N,E,D only / with a wrong D / without D / zero value / nil pointer, these crossed with the three RSA key transports x EncryptedKey alone or nested x valid, undecodable, absent, junk cipher value x certificate absent, matching, same-modulus-other-exponent; X509Data as a sequence of items: the hints X509IssuerSerial / X509SubjectName / X509SKI alone and in front of / behind / in another X509Data element than the certificate of the key, of another key, with another exponent, an EC certificate; family F6: 189 cases of every verdict class written in every enumerated lexical form - namespaces bound to the package's prefixes / other prefixes / the default namespace, declarations on the element / on every element / on the element handed to Decrypt / on an enclosing element, attributes in either order, white space and comments between child elements) is concretised with random contents and given to xmlenc.Decrypt, RSA-wrapped ones also to ServiceProvider.ParseXMLResponse inside an unsigned Response (EncryptedKey nested and as sibling; the service provider holds the sp key or, for key values that are a crypto.Signer, that key value); plus structure-aware mutations of xmlenc/corpus, crashers and testdata; oracle: no panic, MustReject => error; non-trivial = MustReject cases and baseline cases that decrypt"
 	lines := loadLines(t, "vectors.ndjson")
 	if len(lines) == 0 {
 		rep.Break("no vectors")
@@ -593,7 +615,11 @@ func TestC11(t *testing.T) {
 	}
 	var jobs []job
 	for _, v := range vecs {
-		for r := 0; r < reps; r++ {
+		n := reps
+		if !v.Lex.isPkg() && n > 2 { // the lexical forms multiply the cases, not the contents
+			n = 2
+		}
+		for r := 0; r < n; r++ {
 			jobs = append(jobs, job{v, r})
 		}
 	}
@@ -602,6 +628,31 @@ func TestC11(t *testing.T) {
 		runs[i] = c11Execute(jobs[i].v, newRand(fmt.Sprintf("c11/%s/%d", jobs[i].v.id(), jobs[i].r)))
 	})
 
+	// a case written in another lexical form is filed under a key of its own (the key of the case plus the
+	// form) only when the form makes the difference: when the same case fails in the package's form too, the
+	// finding is that case's, whatever the form
+	pkgFails := map[string]bool{}
+	for i, j := range jobs {
+		if v, r := j.v, runs[i]; v.Lex.isPkg() {
+			if r.Direct.K == "panic" {
+				pkgFails[v.panicKeyPkg("C11:panic:")] = true
+			} else if v.Class == "MustReject" && r.Direct.K != "error" {
+				k, _ := v.rejectKey()
+				pkgFails["C11:accepted:"+k] = true
+			}
+			for _, mode := range []string{"nested", "sibling"} {
+				if o, ok := r.SP[mode]; ok && o.K == "panic" && r.Direct.K != "plaintext" {
+					pkgFails[v.panicKeyPkg("C11:panic:sp:")] = true
+				}
+			}
+		}
+	}
+	lexKey := func(v *c11Vec, k string) string {
+		if pkgFails[k] {
+			return k
+		}
+		return k + v.lexSuffix()
+	}
 	modelHit := map[string]int{}
 	baselineOK := map[string]int{}
 	baselineAll := map[string]int{}
@@ -617,12 +668,12 @@ func TestC11(t *testing.T) {
 		}
 		// 1. totality
 		if r.Direct.K == "panic" {
-			rep.Violation(v.panicKey("C11:panic:"), fmt.Sprintf("xmlenc.Decrypt panicked (%s; element %s, CipherValue of %d octets, key %s): %s",
-				v.Fam, v.El.Em, v.El.Len, v.Key.name(), r.Direct.Detail), replay(r.Direct, r.XML, "decrypt"))
+			rep.Violation(lexKey(v, v.panicKeyPkg("C11:panic:")), fmt.Sprintf("xmlenc.Decrypt panicked (%s; element %s, CipherValue of %d octets, key %s, lexical form %s): %s",
+				v.Fam, v.El.Em, v.El.Len, v.Key.name(), v.Lex.name(), r.Direct.Detail), replay(r.Direct, r.XML, "decrypt"))
 		} else if cls == "MustReject" && r.Direct.K != "error" {
 			// 2. rejection
 			k, what := v.rejectKey()
-			rep.Violation("C11:accepted:"+k, fmt.Sprintf("xmlenc.Decrypt returned %d octets and no error for a ciphertext that must be rejected (%s)", r.Direct.N, what), replay(r.Direct, r.XML, "decrypt"))
+			rep.Violation(lexKey(v, "C11:accepted:"+k), fmt.Sprintf("xmlenc.Decrypt returned %d octets and no error for a ciphertext that must be rejected (%s; lexical form %s)", r.Direct.N, what, v.Lex.name()), replay(r.Direct, r.XML, "decrypt"))
 		} else if cls == "DontCare" {
 			match := false
 			said := ""
@@ -659,14 +710,14 @@ func TestC11(t *testing.T) {
 				rep.Violation("C11:panic:sp:plaintext-without-root-element", fmt.Sprintf("ServiceProvider.ParseXMLResponse panicked after decrypting an attacker-built EncryptedAssertion whose plaintext (%d octets) is not an XML element (unsigned Response; %s, CipherValue of %d octets): %s",
 					r.Direct.N, v.El.Em, v.El.Len, o.Detail), replay(o, r.SPXML[mode], "sp"))
 			} else if o.K == "panic" {
-				rep.Violation(v.panicKey("C11:panic:sp:"), fmt.Sprintf("ServiceProvider.ParseXMLResponse panicked on an unsigned Response with an attacker-built EncryptedAssertion (%s, EncryptedKey %s; data %s, CipherValue of %d octets; ServiceProvider.Key %s): %s",
+				rep.Violation(lexKey(v, v.panicKeyPkg("C11:panic:sp:")), fmt.Sprintf("ServiceProvider.ParseXMLResponse panicked on an unsigned Response with an attacker-built EncryptedAssertion (%s, EncryptedKey %s; data %s, CipherValue of %d octets; ServiceProvider.Key %s): %s",
 					v.Fam, mode, v.El.Em, v.El.Len, v.Key.name(), o.Detail), replay(o, r.SPXML[mode], "sp"))
 			} else if o.K != "error" {
 				rep.Violation("C11:sp:accepted:"+id, "ParseXMLResponse returned an assertion from an unsigned Response carrying the attacker-built EncryptedAssertion: "+o.Detail, replay(o, r.SPXML[mode], "sp"))
 			}
 		}
 		if i%499 == 0 {
-			rep.Sample(map[string]any{"fam": v.Fam, "via": v.Via, "algorithm": v.El.Em, "cipher_value_len": v.El.Len, "key": v.Key, "class": cls,
+			rep.Sample(map[string]any{"fam": v.Fam, "via": v.Via, "algorithm": v.El.Em, "cipher_value_len": v.El.Len, "key": v.Key, "lex": v.Lex.name(), "class": cls,
 				"baseline": v.Baseline, "predicted": v.Pred.K, "real": r.Direct, "real_sp": r.SP})
 		}
 	}
@@ -773,11 +824,11 @@ func init() {
 			o, _ := c11Decrypt(c11NamedKey(r.KeyName), doc.Root())
 			return o.K == "panic", o.K + " " + o.Detail
 		case "decrypt":
-			doc := etree.NewDocument()
-			if err := doc.ReadFromString(r.XML); err != nil {
+			target, err := xeParseTarget([]byte(r.XML))
+			if err != nil {
 				t.Fatal(err)
 			}
-			o, _ := c11Decrypt(r.KeyVal.value(), doc.Root())
+			o, _ := c11Decrypt(r.KeyVal.value(), target)
 			bad := o.K == "panic" || (r.Vector.Class == "MustReject" && o.K != "error")
 			return bad, o.K + " " + o.Detail
 		}
